@@ -386,6 +386,9 @@ func (g *Gen) loopHead(li *loopInfo) {
 		spec = &LoopSpec{}
 	}
 	// 1. invariants hold on entry
+	g.curLoop = li
+	defer func() { g.curLoop = nil }()
+	g.curPos = li.pos
 	cx := g.ctxHere()
 	for _, inv := range spec.Inv {
 		g.obligeClause(fmt.Sprintf("inv[%d].entry", li.ordinal), g.evalBool(inv.Expr, cx, inv), inv)
@@ -415,8 +418,15 @@ func (g *Gen) backEdge(li *loopInfo, cond Term) {
 		spec = &LoopSpec{}
 	}
 	saved := g.reach
+	savedPos := g.curPos
+	g.curPos = li.pos
+	g.curLoop = li
+	defer func() { g.curPos = savedPos; g.curLoop = nil }()
 	g.reach = g.define("backedge", cond)
 	cx := g.ctxHere()
+	for _, lm := range spec.Lemma {
+		g.obligeClause(fmt.Sprintf("lemma[%d]", li.ordinal), g.evalBool(lm.Expr, cx, lm), lm)
+	}
 	for _, inv := range spec.Inv {
 		g.obligeClause(fmt.Sprintf("inv[%d].preserve", li.ordinal), g.evalBool(inv.Expr, cx, inv), inv)
 	}
@@ -825,7 +835,7 @@ func (g *Gen) addI(a, b Term) Term {
 		if a.S == "0" {
 			return b
 		}
-		return Term{app("+", a.S, b.S), SInt}
+		return linNorm(Term{app("+", a.S, b.S), SInt})
 	}
 	return Term{app("bvadd", a.S, b.S), a.Sort}
 }
@@ -834,7 +844,7 @@ func (g *Gen) subI(a, b Term) Term {
 		if b.S == "0" {
 			return a
 		}
-		return Term{app("-", a.S, b.S), SInt}
+		return linNorm(Term{app("-", a.S, b.S), SInt})
 	}
 	return Term{app("bvsub", a.S, b.S), a.Sort}
 }
